@@ -290,6 +290,8 @@ pub mod json;
 mod scalar;
 pub mod text;
 pub(crate) mod util;
+#[cfg(jomini_verif)]
+pub mod verif_hooks;
 
 #[doc(inline)]
 pub use self::binary::{BinaryTape, BinaryToken};
